@@ -68,6 +68,12 @@ EXTRA_RXNS = [
     "[CH3:1][C:2]#[N:3].[OH2:4]>>[CH3:1][C:2](=[O:4])[NH2:3]",
     "[CH2:1]=[CH:2][CH3:3].[H:4][H:5]>>[CH2:1]([H:4])[CH:2]([H:5])[CH3:3]",
     "[CH3:1][C:2](=[O:3])[O-:4].[H+:5]>>[CH3:1][C:2](=[O:3])[O:4][H:5]",
+    # aromatic rings built from / broken into open-chain atoms, and rings that persist while (de)aromatising
+    "[CH3:1][N:2]=[N+:3]=[N-:4].[CH:5]#[C:6][CH3:7]>>[CH3:1][n:2]1[n:3][n:4][c:6]([CH3:7])[cH:5]1",
+    "[CH3:1][C:2](=[O:3])[CH:4]([H:12])[C:5](=[O:6])[CH3:7].[N:8]([H:13])([H:14])[N:9]([H:15])[CH3:10]"
+    ">>[CH3:1][c:2]1[cH:4][c:5]([CH3:7])[n:9]([CH3:10])[n:8]1.[O:3]([H:12])[H:13].[O:6]([H:14])[H:15]",
+    "[CH3:1][C:2](=[O:3])[CH2:4][CH2:5][C:6](=[O:7])[CH3:8].[NH3:9]>>[CH3:1][c:2]1[cH:4][cH:5][c:6]([CH3:8])[nH:9]1.[OH2:3].[OH2:7]",
+    "[CH2:1]1[CH:2]=[CH:3][NH:4][CH:5]=[CH:6]1.[O:7]=[O:8]>>[cH:1]1[cH:2][cH:3][n:4][cH:5][cH:6]1.[OH:7][OH:8]",
 ]
 
 
